@@ -24,6 +24,9 @@ TRUSTED = [
     "axioms: none expected (see print_assumptions in this file)",
     "extraction: ExtrOcamlBasic only; ocaml/common/conv.ml + ocaml/C01/driver.ml (replays the histories this check emits)",
     "Go harness: harness/internal/dbwrap (database wrapper: numbers every call that has an error or iterator result, makes call k return an injected error without touching the real database; documented nearest-faithful behaviour for Commit / BeginTx / NewIterator), harness/internal/cfsim (script recorder/replayer, fault procedure, snapshots), harness/internal/sim + harness/internal/hist, harness/cmd/c18",
+    "dbwrap fault sets (call k and call k+d of one operation, numbered in the faulted run), call descriptions (kind, two innermost wallet functions, short key) = the fault targets of the coverage-guided plans (harness/cmd/c18/guided.go: persistent worker processes, plans are a function of VERIF_SEED and the twins)",
+    "background work is made replayable: the worker goroutine is held (at its next database call) while the API call that queued its task runs, and the harness' own polling reads are not numbered (cfsim.HoldBackground)",
+    "a FATAL log of the wallet (logrus exit) during a fault run is turned into 'the process stops here' (cfsim/fatal.go) and reported as a divergence",
     "not injected (documented in dbwrap): TopLevelBucket / FetchBucket / Bucket (answer nil for absent and error alike; callers dereference: C19), Rollback (result ignored by every caller), iterator stepping",
     "deterministic entropy: crypto/rand.Reader is replaced during CreateWallet so that a repeated CreateWallet creates the twin's wallet",
     "environment, not verified: mass-core, goleveldb",
@@ -47,9 +50,17 @@ def main(tier, replay=None):
     jobs = int(os.environ.get("VERIF_JOBS", V.NCPU))
     args = [outs[0], "-n", str(n), "-out", out, "-j", str(jobs)]
     # quick: coverage-guided plans (cmd/c18/guided.go) within a budget of runs per history; a modelled Go
-    # function whose source changed since the pin (c.drift) triples the budget and the multiplicity
+    # function whose source changed since the pin (c.drift) raises the budget and the multiplicity.
+    # thorough: every call index of every operation + the uniform pairs (k <= 3, 2 <= d <= 6), then the
+    # guided plans with multiplicity 4 on 64 further histories
     quota, mult = (20, 2) if not c.escalated else (36, 3)
-    args += ["-guided", "-quota", str(quota), "-mult", str(mult)] if tier == "quick" else ["-all", "-pairs", "6"]
+    if tier == "quick":
+        passes = [args + ["-guided", "-quota", str(quota), "-mult", str(mult)]]
+    else:
+        quota, mult = 44, 4
+        out2 = os.path.join(c.workdir, "impl2.txt")
+        passes = [args + ["-all", "-pairs", "3"],
+                  [outs[0], "-n", "64", "-first", "1000", "-out", out2, "-j", str(jobs), "-guided", "-quota", str(quota), "-mult", str(mult)]]
     if replay:
         rp = json.load(open(replay))
         os.environ["VERIF_SEED"] = str(rp.get("seed", c.seed))
@@ -66,10 +77,16 @@ def main(tier, replay=None):
         open(out, "w").write("".join(chunks))
         stats = "replay"
     else:
-        rc, o, e = V.sh(args, timeout=3300)
-        stats = e.strip().splitlines()[-1] if e.strip() else ""
-        if rc != 0:
-            return c.finish(TRUSTED, no_input_break="harness cmd/c18 failed to run: " + (o + e)[-1500:])
+        stats = ""
+        for a in passes:
+            rc, o, e = V.sh(a, timeout=3300)
+            sl = [l for l in e.strip().splitlines() if l.startswith("STATS ")]
+            stats += (" | " if stats else "") + (sl[-1] if sl else "")
+            if rc != 0:
+                return c.finish(TRUSTED, no_input_break="harness cmd/c18 failed to run: " + (o + e)[-1500:])
+        if len(passes) > 1:
+            with open(out, "a") as fo:
+                fo.write(open(out2).read())
 
     c.log("harness:", stats[:160])
     model_in = os.path.join(c.workdir, "model.txt")
@@ -193,11 +210,11 @@ def main(tier, replay=None):
                 "plans, thorough tier takes every j), once or repeatedly (the first retry fails at the same call again; two consecutive calls for background "
                 "work and announcements); quick tier in addition coverage-guided explicit plans (cmd/c18/guided.go): every distinct fault target of any twin "
                 "as a single fault, every distinct target of a repair / reload / retry path as the second of two non-adjacent faults of one operation "
-                "(call k and the d-th call after it, numbered in the faulted run; thorough tier: every pair k <= 6, 2 <= d <= 12 as uniform plans), each in up to "
-                "`mult` histories; the NewAddress that follows a faulted operation on the same wallet runs undisturbed and is compared with the twin's. "
+                "(call k and the d-th call after it, numbered in the faulted run; thorough tier: in addition every pair k <= 3, 2 <= d <= 6 as uniform plans "
+                "and the guided plans on 64 further histories), each target in up to `mult` histories (again, in a plan of its own, when a plan aimed at it and missed); the NewAddress that follows a faulted operation on the same wallet runs undisturbed and is compared with the twin's. "
                 "distinct_nontrivial = distinct (history, plan, kinds of the failing calls). " + stats,
         "fault_target_coverage": tcov,
-        "budget": {"runs_per_history": quota if tier == "quick" else "all", "multiplicity": mult if tier == "quick" else None, "escalated_by_model_source_drift": bool(c.escalated)},
+        "budget": {"guided_runs_per_history_at_most": quota, "multiplicity": mult, "escalated_by_model_source_drift": bool(c.escalated)},
         "observer_newaddress": {"histories": observers[0], "histories_with_newaddress_of_restored_wallet_after_import": observers[1],
                                 "newaddress_calls_following_an_operation_on_their_wallet": observers[2]},
         "histories": len(scripts),
